@@ -79,8 +79,10 @@ def gen_curve(rng):
         x = min(max(x, ys[-1] * 0.5), ys[-1] * 2.0)
         x = min(max(x, x0 / 1000.0), x0 * 1000.0)
         ys.append(x)
-    nd = rng.choice([2, 2, 6, None])
+    nd = rng.choice([2, 2, 6, None, 0])
     xs = [float(round(x, nd)) if nd is not None else float(x) for x in ys]
+    if nd == 0:
+        xs = [max(1, int(x)) for x in xs]        # a whole-dollar curve: the Equity column is int64
     start = dt.date(1995, 1, 2) + dt.timedelta(days=rng.randint(0, 11000))
     return {'kind': kind, 'start': start.isoformat(), 'equity': xs,
             'index': rng.choice(['date', 'date', 'timestamp'])}
@@ -444,6 +446,8 @@ def shard(spec, acc):
             dd = run_case(case, acc, random.Random(case['seed']), tmpdir)
             acc.evaluations += 1
             acc.count('C17:class/%s' % case['kind'])
+            if all(isinstance(x, int) for x in case['equity']):
+                acc.count('C17:integer_dtype_curves')
             if dd is not None and episodes(dd) >= 2:
                 acc.nontriv('C17', case['kind'], len(case['equity']), case['equity'][:6], case['start'])
             if i < 2:
